@@ -918,6 +918,11 @@ def invoke(ctx, tgt, name, args):
         f = args[0]
         a = args[1]
         extra = list(a.fields) if type(a) is Agg else [a]
+        if deref_all(f) is None:
+            # a capture-less closure is zero-sized: MIR never assigns it; its identity is in the callee's type
+            mm = re.match(r'^<&?(?:mut )?\{closure@([^}]*)\} as Fn', name)
+            if mm:
+                f = Agg('closure@' + mm.group(1), None, ())
         return ctx.call_value(f, extra)
     if k == 'dyn':
         info = tgt[1]
